@@ -379,3 +379,29 @@ func vh_echo4_padded() {
 	vassert(ck == ^vhSum(msg, 0), "the ICMP checksum is the complemented RFC 1071 sum of the message")
 	vreach("answered")
 }
+
+// C04 (path MTU): an ICMP "fragmentation needed" report is handed to the transport layer
+// with the payload size the reported next-hop MTU allows, i.e. the MTU minus the IPv4 header
+// (the value tcp.updateMaxPayloadSize takes as the new ceiling; C04 mss shows it is honoured).
+func vh_icmp4_fragneeded() {
+	env := vhNewEnv()
+	e := env.e
+	mtu := vnU16("mtu")
+	vassume(mtu >= 68) // RFC 791 minimum; smaller reports are not meaningful path MTUs
+	// type 3 code 4, unused(2) + next-hop MTU(2), then the offending IP header + 8 bytes
+	b := make([]byte, 8+20+8)
+	b[0], b[1] = 3, 4
+	b[6], b[7] = byte(mtu>>8), byte(mtu)
+	inner := vhHeader(vnU16("id"), 0, 0, 8, 6)
+	// the offending packet was ours: from the local address to the remote one
+	copy(inner[12:16], []byte(vhLocal))
+	copy(inner[16:20], []byte(vhRemote))
+	copy(b[8:], inner[:20])
+	copy(b[28:], vnBytes("l4", 8))
+	e.handleICMP(&env.r, vhPkt(b, 0))
+	vassert(len(env.disp.Ctrl) == 1, "the report reaches the transport layer once")
+	c := env.disp.Ctrl[0]
+	vassert(c.Typ == stack.ControlPacketTooBig, "as a packet-too-big control message")
+	vassert(c.Extra == uint32(mtu)-20, "carrying the reported path MTU minus the IPv4 header: the largest transport packet the path allows")
+	vreach("fragneeded")
+}
